@@ -266,6 +266,20 @@ def write_record(encoder, datum, schema, named_schemas, fname, options):
             datum_value = datum[name]
         elif "default" in field:
             datum_value = default_datum(field_type, field["default"], named_schemas)
+            if (
+                isinstance(field_type, list)
+                and field_type
+                and _validate(
+                    datum_value, field_type[0], named_schemas, "", False, options
+                )
+            ):
+                # The default of a union belongs to its first branch: write it
+                # there instead of letting the value pick a (later) branch
+                encoder.write_index(0, field_type[0])
+                write_data(
+                    encoder, datum_value, field_type[0], named_schemas, name, options
+                )
+                continue
         else:
             datum_value = None
         if field_type == "float" or field_type == "double":
